@@ -77,6 +77,9 @@ theorem primsOK_logGrows (P : Params) (h : Nat) : PrimsOK P h logGrows where
 /-- log grows and replay marks stay -/
 def ext : Rel DB := logGrows.and relsGrow
 
+theorem hlog_ext : ∀ x, Step ext (logExec x) :=
+  fun _ => Step.guarded (fun s => ⟨logKeep _ _ rfl, fun _ h => h⟩)
+
 theorem primsOK_ext (P : Params) (h : Nat) : PrimsOK P h ext :=
   primsOK_and (primsOK_logGrows P h) (primsOK_relsGrow P h)
 
@@ -155,15 +158,18 @@ theorem applyBatch_outcome (hpos : 0 < h) {e : TxEntry} {rates avgs : Option TMa
   cases hver : verdict P s h rates avgs e.txs with
   | apply =>
     rw [hver] at hr
-    simp only [M.bind_run] at hr
-    cases hrec : recordBatch P h e.hash rates avgs e.txs s with
+    simp only [M.bind_run, logExec, M.guarded] at hr
+    cases hrec : recordBatch P h e.hash rates avgs e.txs { s with execLog := s.execLog ++ [e.hash] } with
     | ok u s2 =>
       rw [hrec] at hr; simp only [M.pure_run] at hr; injection hr with hv hs
       refine ⟨hv.symm, ⟨fun _ hne => ?_, fun f hf => (by rw [hf] at hv; cases hv)⟩⟩
       subst hs
       cases htx : e.txs with
       | nil => exact absurd htx hne
-      | cons t rest => rw [htx] at hrec; exact recordBatch_wrote hpos hrec
+      | cons t rest =>
+        rw [htx] at hrec
+        have hw := recordBatch_wrote hpos hrec
+        exact Wrote.mono_left (s0 := s) (List.prefix_refl _) hw
     | fail f s2 => rw [hrec] at hr; cases hr
   | reject c => rw [hver] at hr; simp only [M.pure_run] at hr; injection hr with hv _; exact ⟨hv.symm, ⟨fun h => (by rw [h] at hv; cases hv), fun f hf => (by rw [hf] at hv; cases hv)⟩⟩
   | dropped => rw [hver] at hr; simp only [M.pure_run] at hr; injection hr with hv _; exact ⟨hv.symm, ⟨fun h => (by rw [h] at hv; cases hv), fun f hf => (by rw [hf] at hv; cases hv)⟩⟩
@@ -296,7 +302,7 @@ theorem applyHeld_considers (hpos : 0 < h) {rates avgs : TMap} {e : TxEntry} {s 
       exact Or.inr (Or.inl hrep)
     · obtain ⟨v, s1, h1, h2⟩ := M.bind_ok hr
       obtain ⟨hv, happly, hnf⟩ := applyBatch_outcome hpos h1
-      have p1 := logOf (applyBatch_step ok e (some rates) (some avgs)) h1
+      have p1 := logOf (applyBatch_step ok hlog_ext e (some rates) (some avgs)) h1
       cases v with
       | reject c =>
         obtain ⟨_, s2, h3, h4⟩ := M.bind_ok h2
@@ -369,7 +375,7 @@ theorem applyHolding_considers (hpos : 0 < h) {c : DB} {rates avgs : TMap} {from
     let join ← applyHeld P h rates avgs e
     pure (if join then l ++ [e] else l)
   have innerStep : ∀ l e, Step ext (inner l e) := fun l e =>
-    Step.bind (applyHeld_step ok rates avgs e) (fun _ => Step.pure _)
+    Step.bind (applyHeld_step ok hlog_ext rates avgs e) (fun _ => Step.pure _)
   have innerOK : ∀ l e s l' s', inner l e s = .ok l' s' → Considered P h rates avgs s s' e := by
     intro l e s l' s' hi
     obtain ⟨j, sa, ha, hb⟩ := M.bind_ok hi
@@ -462,7 +468,7 @@ theorem txPhase_considers (hpos : 0 < b.height) {s s' : DB} (hr : txPhase P c b 
   obtain ⟨_, s2, h3, h4⟩ := M.bind_ok h2
   obtain ⟨rates, hc⟩ := holdingPhase_considers hpos h3
   have e1 : ext.r s s1 := (snapshotPhase_step b ok).ok h1
-  have e3 : ext.r s2 s' := (txBlockPhase_step b ok).ok h4
+  have e3 : ext.r s2 s' := (txBlockPhase_step b ok hlog_ext).ok h4
   exact ⟨rates, fun row hrow hlo hhi => ((hc row hrow hlo hhi).mono_left e1).mono_right e3⟩
 
 /-- **Block level.** When the block transaction of a block at or above the transaction
@@ -478,13 +484,13 @@ theorem block_considers_held (hpos : 0 < b.height) {s' : DB} (hrun : blockTx P c
   unfold blockTx at hrun
   obtain ⟨_, s1, h1, h2⟩ := M.bind_ok hrun
   obtain ⟨_, s2, h3, h4⟩ := M.bind_ok h2
-  have e0 : ext.r c s1 := (burnZeroing_step c b ok).ok h1
+  have e0 : ext.r c s1 := (burnZeroing_step c b ok hlog_ext).ok h1
   have e9 : ext.r s2 s' := (ok.markSynced _).ok h4
   unfold syncBlock at h3
   obtain ⟨_, s3, h5, h6⟩ := M.bind_ok h3
   obtain ⟨_, s4, h7, h8⟩ := M.bind_ok h6
   obtain ⟨st, s5, h9, h10⟩ := M.bind_ok h8
-  have e1 : ext.r s1 s3 := (preAdjust_step c b ok).ok h5
+  have e1 : ext.r s1 s3 := (preAdjust_step c b ok hlog_ext).ok h5
   have e2 : ext.r s3 s4 := (sprPanicCheck_step (P := P) b ok).ok h7
   have e3 : ext.r s4 s5 := (gradeAndRates_step c b ok).ok h9
   cases st with
